@@ -419,8 +419,8 @@ func runC16(cs CaseSpec) *CaseResult {
 func init() {
 	register(&PropDef{
 		ID: "C16", Level: "exploration", Engine: "storecheck",
-		Rule: "one case = the exact sequence of store writes a real Hashgraph made while processing a seeded synthetic DAG (events re-written as their coordinates grow, rounds, frames, blocks re-written as signatures arrive, peer-sets), replayed against a fresh real BadgerStore with one cache size from {1,2,3,5,8,13,21,50,200,default} with random reads of old keys interleaved (events, blocks, per-participant listings with random skip, single items) and full audits (API reads, DB-level reads of events/blocks/rounds/frames/peer-sets/roots/repertoire, topological and per-participant listings complete, ordered and gap-free) before a close, after the reopen and at the end; compared with a map model; a write that returns an error is a refused write and is not applied to the model; non-trivial: >=50 writes replayed; distinct by (history, cache size)",
-		Assumptions: []string{"cache-only reads (rounds, frames through the normal API) are not judged; their durability is judged through the DB-level hooks", "stores reset by fast-sync are excluded"},
+		Rule:          "one case = the exact sequence of store writes a real Hashgraph made while processing a seeded synthetic DAG (events re-written as their coordinates grow, rounds, frames, blocks re-written as signatures arrive, peer-sets), replayed against a fresh real BadgerStore with one cache size from {1,2,3,5,8,13,21,50,200,default} with random reads of old keys interleaved (events, blocks, per-participant listings with random skip, single items) and full audits (API reads, DB-level reads of events/blocks/rounds/frames/peer-sets/roots/repertoire, topological and per-participant listings complete, ordered and gap-free) before a close, after the reopen and at the end; compared with a map model; a write that returns an error is a refused write and is not applied to the model; non-trivial: >=50 writes replayed; distinct by (history, cache size)",
+		Assumptions:   []string{"cache-only reads (rounds, frames through the normal API) are not judged; their durability is judged through the DB-level hooks", "stores reset by fast-sync are excluded"},
 		MinNontrivial: 8,
 		Cases: func(tier string, seed int64) []CaseSpec {
 			count := 40
